@@ -115,6 +115,42 @@ func checkWireIdentifiers(c *fw.Ctx, r *reqEnv, tag string) {
 	}
 	cmp("echo-id", icmps)
 	cmp("ip-id", syns)
+	// the RANGES handed to the runs, not only the identifiers that happened to be emitted: a default-mode SYN run owns
+	// (base, base+MaxTTL] where base = IP-ID - TTL of any of its probes; two runs of one request are live together
+	type blk struct {
+		f     *simEnv
+		start uint16
+		n     int
+	}
+	var blks []blk
+	for _, s := range syns {
+		fl := s.f.flow()
+		if len(fl.Probes) == 0 || s.f.spec.MaxTTL == 0 {
+			continue
+		}
+		base := fl.Probes[0].IPID - uint16(fl.Probes[0].TTL)
+		same := true
+		for _, p := range fl.Probes {
+			if p.IPID-uint16(p.TTL) != base {
+				same = false
+			}
+		}
+		if !same {
+			continue // not the base+ttl scheme: the per-identifier comparison above is what applies
+		}
+		blks = append(blks, blk{s.f, base + 1, int(s.f.spec.MaxTTL)})
+	}
+	for i := 0; i < len(blks); i++ {
+		for j := i + 1; j < len(blks); j++ {
+			d1 := int(uint16(blks[j].start - blks[i].start))
+			d2 := int(uint16(blks[i].start - blks[j].start))
+			c.Count("identifier_range_pairs_checked", 1)
+			if d1 < blks[i].n || d2 < blks[j].n {
+				c.Violate("C11", "identifier-range-overlap/ip-id", fmt.Sprintf("%s: flows %d and %d of one request own overlapping IP-ID ranges [%d,+%d) and [%d,+%d)", tag, blks[i].f.handle.Idx, blks[j].f.handle.Idx, blks[i].start, blks[i].n, blks[j].start, blks[j].n), nil)
+				return
+			}
+		}
+	}
 	// random identifiers: one shared value in ~10^3 pairs has probability ~2e-7, two shared values are not chance
 	for i := 0; i < len(paris); i++ {
 		for j := i + 1; j < len(paris); j++ {
@@ -137,7 +173,7 @@ func checkC11() fw.Check {
 	return fw.Check{
 		Prop:  "C11",
 		Level: "exploration",
-		Rule: "(a) K in {2,3,5,8} runs started at staggered virtual instants over ONE simulated wire on which every handle sees every inbound frame and every outgoing probe (protocol mixes incl. all-same, same and different targets, different first TTLs, each flow with its own router addresses and delays, allocator bases at the 16-bit wrap), and whole RunTraceroute requests (3 runs + N end-to-end probes); oracle: every run equals the reference fold of its own flow's ledger, no hop carries another flow's router, identifiers seen on the wire for live runs are pairwise distinct; bubble + race detector. (b) allocator stress with real goroutines: 16 callers x N AllocPacketID(mixed maxTTL) / echo-id draws, each allocation kept live for a few iterations; a monitor with its own lock checks every new range (start, start+maxTTL] modulo 65536 against all live ranges (< 65536 identifiers live), across the 2^16 and 2^32 wraps. " +
+		Rule: "(a) K in {2,3,5,8} runs started at staggered virtual instants over ONE simulated wire on which every handle sees every inbound frame and every outgoing probe (protocol mixes incl. all-same, same and different targets, different first TTLs, each flow with its own router addresses and delays, allocator bases at the 16-bit wrap), and whole RunTraceroute requests (3 runs + N end-to-end probes); oracle: every run equals the reference fold of its own flow's ledger, no hop carries another flow's router, identifiers seen on the wire for live runs are pairwise distinct and the IP-ID ranges (base, base+MaxTTL] owned by the default-mode SYN flows of one request (incl. the command line's default shape: 3 runs + 50 end-to-end probes x 30 TTLs) are pairwise disjoint modulo 65536; bubble + race detector. (b) allocator stress with real goroutines: 16 callers x N AllocPacketID(mixed maxTTL) / echo-id draws, each allocation kept live for a few iterations; a monitor with its own lock checks every new range (start, start+maxTTL] modulo 65536 against all live ranges (< 65536 identifiers live), across the 2^16 and 2^32 wraps. " +
 			"distinct_nontrivial counts distinct (K, protocol mix, same-target, stagger class) scenario signatures in which at least two runs received replies, plus allocator phases",
 		Workers:       1,
 		MinNontrivial: 30,
@@ -160,6 +196,10 @@ func checkC11() fw.Check {
 			for i := 0; i < nreq; i++ {
 				i := i
 				cases = append(cases, fw.Case{ID: fmt.Sprintf("C11/request/%d", i), Bubble: true, Run: func(c *fw.Ctx) { runC11Request(c, c.ID, i) }})
+				if i%6 == 0 {
+					j := 1000 + i/6
+					cases = append(cases, fw.Case{ID: fmt.Sprintf("C11/request-default-shape/%d", j), Bubble: true, Run: func(c *fw.Ctx) { runC11Request(c, c.ID, j) }})
+				}
 			}
 			for _, base := range []uint32{0, 0xfff0, 0xffffff00, 0x7fffff00} {
 				base := base
@@ -355,6 +395,15 @@ func runC11Request(c *fw.Ctx, id string, i int) {
 	}
 	params := traceroute.TracerouteParams{Hostname: target.String(), Port: port, Protocol: proto, MinTTL: 1, MaxTTL: 6, Delay: 20, Timeout: 700 * time.Millisecond,
 		TCPMethod: method, TracerouteQueries: 3, E2eQueries: 2 + i%4}
+	if i >= 1000 {
+		// the command line's default shape: 3 path runs + 50 end-to-end probes, 30 TTLs each; 53 ranges of 30 identifiers
+		// out of 65536 live at once
+		proto, method = "tcp", traceroute.TCPConfigSYN
+		params.Protocol, params.TCPMethod, params.MaxTTL, params.E2eQueries = proto, method, 30, 50
+		if i%2 == 1 {
+			params.E2eQueries = 20
+		}
+	}
 	env, err := newReqEnv(c, params, target, uint16(port), proto == "tcp" && method != traceroute.TCPConfigSYN)
 	if err != nil {
 		c.Inconclusive(err.Error())
